@@ -1,42 +1,169 @@
-//! Native replay shim for Kani harnesses: `kani::any()` reads the solver's
-//! counterexample values (a flat little-endian byte stream in the environment
-//! variable KANI_REPLAY_VALUES, hex; zeros once exhausted), `kani::assume`
-//! aborts the replay as *not reproduced* when the assumption does not hold,
-//! `kani::cover!` is a no-op. The harness then runs as ordinary Rust against
-//! a native build of /repo, so a failing assertion is a real panic.
+//! Native replay shim for Kani harnesses. The harness runs as ordinary Rust
+//! against a native build of /repo, so a failing assertion is a real panic of
+//! the real code, and *any* input that satisfies the harness's assumptions
+//! and makes it panic is a genuine counterexample.
+//!
+//! KANI_REPLAY_VALUES=<hex>   exact replay: `kani::any()` reads this flat
+//!                            little-endian byte stream (zeros once exhausted)
+//! KANI_REPLAY_ENTRIES=<n:hex;n:hex;...>
+//!                            the solver's relevant nondet values in order
+//!                            (Kani's sliced trace omits don't-care values, so
+//!                            positions are unknown): the driver searches the
+//!                            alignments (consume the next entry / serve a
+//!                            zero), in-process, until the harness panics
+//! The stream that made the harness panic is printed as REPLAY-STREAM <hex>.
 pub use kani_macros::{proof, solver, stub, unwind};
 
 use std::cell::RefCell;
+use std::panic::{self, AssertUnwindSafe};
+
+struct AssumeViolated;
+
+#[derive(Default)]
+struct State {
+    flat: Vec<u8>,
+    flat_pos: usize,
+    entries: Vec<Vec<u8>>,
+    next_entry: usize,
+    use_entries: bool,
+    /// decisions for eligible requests: true = consume the entry, false = serve zeros
+    decisions: Vec<bool>,
+    decision_pos: usize,
+    served: Vec<u8>,
+}
 
 thread_local! {
-    static STREAM: RefCell<Option<(Vec<u8>, usize)>> = RefCell::new(None);
+    static ST: RefCell<State> = RefCell::new(State::default());
+}
+
+fn unhex(s: &str) -> Vec<u8> {
+    let h: Vec<u8> = s.bytes().filter(|c| c.is_ascii_hexdigit()).collect();
+    let mut out = vec![];
+    let mut i = 0;
+    while i + 1 < h.len() {
+        out.push(u8::from_str_radix(std::str::from_utf8(&h[i..i + 2]).unwrap(), 16).unwrap());
+        i += 2;
+    }
+    out
 }
 
 fn next_bytes(n: usize) -> Vec<u8> {
-    STREAM.with(|s| {
+    ST.with(|s| {
         let mut s = s.borrow_mut();
-        if s.is_none() {
-            let hex = std::env::var("KANI_REPLAY_VALUES").unwrap_or_default();
-            let hex: Vec<u8> = hex.bytes().filter(|c| c.is_ascii_hexdigit()).collect();
-            let mut bytes = vec![];
-            let mut i = 0;
-            while i + 1 < hex.len() {
-                let h = std::str::from_utf8(&hex[i..i + 2]).unwrap();
-                bytes.push(u8::from_str_radix(h, 16).unwrap());
-                i += 2;
-            }
-            *s = Some((bytes, 0));
-        }
-        let (bytes, pos) = s.as_mut().unwrap();
         let mut out = vec![0u8; n];
-        for k in 0..n {
-            if *pos < bytes.len() {
-                out[k] = bytes[*pos];
-                *pos += 1;
+        if s.use_entries {
+            let eligible = s.next_entry < s.entries.len() && s.entries[s.next_entry].len() == n;
+            if eligible {
+                let take = if s.decision_pos < s.decisions.len() {
+                    s.decisions[s.decision_pos]
+                } else {
+                    s.decisions.push(true);
+                    true
+                };
+                s.decision_pos += 1;
+                if take {
+                    out = s.entries[s.next_entry].clone();
+                    s.next_entry += 1;
+                }
+            }
+        } else {
+            for k in 0..n {
+                if s.flat_pos < s.flat.len() {
+                    out[k] = s.flat[s.flat_pos];
+                    s.flat_pos += 1;
+                }
             }
         }
+        s.served.extend_from_slice(&out);
         out
     })
+}
+
+/// Runs the harness body; see the module documentation.
+pub fn replay_driver<F: Fn()>(f: F) {
+    let entries_env = std::env::var("KANI_REPLAY_ENTRIES").ok();
+    let quiet = std::env::var("KANI_REPLAY_VERBOSE").is_err();
+    if let Some(es) = entries_env {
+        let entries: Vec<Vec<u8>> = es
+            .split(';')
+            .filter(|e| !e.is_empty())
+            .map(|e| unhex(e.split(':').last().unwrap_or("")))
+            .collect();
+        let prev = panic::take_hook();
+        if quiet {
+            panic::set_hook(Box::new(|_| {}));
+        }
+        let mut decisions: Vec<bool> = vec![];
+        let mut runs = 0usize;
+        let mut found: Option<(Vec<u8>, String)> = None;
+        loop {
+            runs += 1;
+            ST.with(|s| {
+                let mut s = s.borrow_mut();
+                *s = State::default();
+                s.entries = entries.clone();
+                s.use_entries = true;
+                s.decisions = decisions.clone();
+            });
+            let r = panic::catch_unwind(AssertUnwindSafe(|| f()));
+            let (dec, served) = ST.with(|s| {
+                let s = s.borrow();
+                (s.decisions.clone(), s.served.clone())
+            });
+            match r {
+                Err(e) if !e.is::<AssumeViolated>() => {
+                    let msg = if let Some(m) = e.downcast_ref::<&str>() {
+                        m.to_string()
+                    } else if let Some(m) = e.downcast_ref::<String>() {
+                        m.clone()
+                    } else {
+                        String::from("panic")
+                    };
+                    found = Some((served, msg));
+                    break;
+                }
+                _ => {}
+            }
+            // backtrack: flip the last `true` decision to `false`, drop what follows
+            let mut d = dec;
+            while let Some(last) = d.pop() {
+                if last {
+                    d.push(false);
+                    break;
+                }
+            }
+            if d.is_empty() || runs >= 20000 {
+                break;
+            }
+            decisions = d;
+        }
+        panic::set_hook(prev);
+        match found {
+            Some((served, msg)) => {
+                let hex: String = served.iter().map(|b| format!("{:02x}", b)).collect();
+                println!("REPLAY-STREAM {}", hex);
+                println!("REPLAY-RUNS {}", runs);
+                panic!("harness panicked natively: {}", msg);
+            }
+            None => {
+                println!("REPLAY-NOT-REPRODUCED after {} alignment(s)", runs);
+            }
+        }
+        return;
+    }
+    // exact mode
+    let flat = unhex(&std::env::var("KANI_REPLAY_VALUES").unwrap_or_default());
+    ST.with(|s| {
+        let mut s = s.borrow_mut();
+        *s = State::default();
+        s.flat = flat;
+    });
+    let r = panic::catch_unwind(AssertUnwindSafe(|| f()));
+    match r {
+        Ok(()) => {}
+        Err(e) if e.is::<AssumeViolated>() => println!("REPLAY-ASSUME-VIOLATED"),
+        Err(e) => panic::resume_unwind(e),
+    }
 }
 
 pub trait Arbitrary: Sized {
@@ -75,9 +202,7 @@ pub fn any<T: Arbitrary>() -> T {
 
 pub fn assume(cond: bool) {
     if !cond {
-        // not a reproduction: the replayed values leave the harness's domain
-        println!("REPLAY-ASSUME-VIOLATED");
-        std::process::exit(77);
+        panic::panic_any(AssumeViolated);
     }
 }
 
